@@ -12,9 +12,14 @@ Theorems about `Ecal.DebugCmd` (model of `interpreter/debug_cmd.go` and the comm
 namespace Ecal.Props.C16
 open Ecal.DebugCmd
 
-/-- The model dispatches on exactly the keys of `DebugCommandsMap` (regenerated from the Go
-    source on every run), bound to the same Go types. -/
-theorem vocabulary_matches : Ecal.Gen.C16.commands.map (fun e => (e.1, e.2.1)) = vocabulary := by decide
+/-- The model dispatches on exactly the command WORDS of `DebugCommandsMap` (regenerated from
+    the Go source on every run; the Go type names bound to them are not compared). -/
+theorem vocabulary_matches : Ecal.Gen.C16.commands.map (fun e => e.1) = vocabulary.map (fun e => e.1) := by decide
+
+/-- `HandleInput` compares the first word of a line with no literal of its own: the table is
+    its whole vocabulary (a word it dispatches on besides the table would be a command the model
+    does not have; the generator sends every such word as well). -/
+theorem handleinput_has_no_own_words : Ecal.Gen.C16.dispatchLiterals = [] := by decide
 
 /-- The argument-count tests, as the extractor EVALUATES them for 0..5 arguments (whatever
     their source text), do not contradict `Cmd.rejects`. -/
@@ -153,16 +158,36 @@ theorem event_preserves_inv (s s' : DbgState) (e : Event) (h : Inv s) (he : appl
       · intro f hfm; cases hfm
       · exact hf p hp
   | setRefs => simp only [applyEvent] at he; cases he; exact ⟨⟨hf, hs⟩, hl⟩
+  | setLockingState => simp only [applyEvent] at he; cases he; exact ⟨⟨hf, hs⟩, hl⟩
+  | stopThreads =>
+    simp only [applyEvent] at he; cases he
+    refine ⟨⟨hf, ?_⟩, hl⟩
+    intro p hp
+    simp only [List.mem_map] at hp
+    obtain ⟨q, hq, rfl⟩ := hp
+    have hg := hs q hq
+    split
+    · exact hg
+    · exact ⟨hg.1, hg.2⟩
   | source src => simp only [applyEvent] at he; cases he; exact ⟨⟨hf, hs⟩, hl⟩
   | setGlobals names => simp only [applyEvent] at he; cases he; exact ⟨⟨hf, hs⟩, hl⟩
   | finish tid =>
     simp only [applyEvent] at he
     split at he
     · cases he
-    · split at he
-      · cases he; exact ⟨⟨hf, hs⟩, hl⟩
-      · cases he
-        exact ⟨⟨fun p hp => hf p (mem_del hp), hs⟩, hl⟩
+    · cases he
+      exact ⟨⟨fun p hp => hf p (mem_del hp), fun p hp => hs p (mem_del hp)⟩, hl⟩
+  | injectCompletes pathOk tid varName =>
+    simp only [applyEvent] at he
+    have hw := injectSecond_safe { eval := fun _ => .ok, setPathOk := fun _ _ => pathOk } tid varName
+      (s := s) ⟨hf, hs⟩ hl
+    unfold wp at hw
+    split at he
+    · rename_i a t hr
+      cases he
+      rw [hr] at hw
+      exact hw
+    · cases he
   | advance tid depth w =>
     simp only [applyEvent] at he
     split at he
